@@ -524,6 +524,9 @@ func main() {
 func runAll(r *hx.Run) error {
 	if r.Replay != "" {
 		return hx.ReplayOps(r, func(op []string) (string, bool) {
+			if len(op) > 0 && op[0] == "life" {
+				return "-", true // an op of the other stream of C08
+			}
 			if len(op) != 2 || op[0] != "sched" {
 				return "", false
 			}
